@@ -236,6 +236,8 @@ pub struct Dec<'a> {
     /// the element budget: abort with Other when more than this many elements would be materialised
     pub elem_budget: u64,
     pub budget_exceeded: bool,
+    /// claimed counts of zero-width elements above this are not materialised
+    pub zero_width_limit: u128,
 }
 
 impl<'a> Dec<'a> {
@@ -248,6 +250,7 @@ impl<'a> Dec<'a> {
             max_claim: 0,
             elem_budget: 1 << 16,
             budget_exceeded: false,
+            zero_width_limit: 4096,
         }
     }
     fn pop(&mut self) -> Result<u8, ErrKind> {
@@ -387,6 +390,10 @@ impl<'a> Dec<'a> {
                 self.max_claim = self.max_claim.max(n);
                 if e.min_width() == 0 {
                     self.max_zero_width_claim = self.max_zero_width_claim.max(n);
+                    if n > self.zero_width_limit {
+                        self.budget_exceeded = true;
+                        return Err(ErrKind::Other);
+                    }
                 }
                 let mut out = vec![];
                 let mut i: u128 = 0;
@@ -402,6 +409,10 @@ impl<'a> Dec<'a> {
                 self.max_claim = self.max_claim.max(n);
                 if k.min_width() + v.min_width() == 0 {
                     self.max_zero_width_claim = self.max_zero_width_claim.max(n);
+                    if n > self.zero_width_limit {
+                        self.budget_exceeded = true;
+                        return Err(ErrKind::Other);
+                    }
                 }
                 let mut out = vec![];
                 let mut i: u128 = 0;
